@@ -980,7 +980,7 @@ class C09(PropertyCheck):
         "functools.wraps / *args / **kwargs plumbing of the decorator; cached_property on the over sampler",
     ]
     # loop ties (DESIGN §12): regenerated from the source on every run, tie theorems proved for all sizes
-    loop_tie_modules = ["LoopsOverSample", "LoopsOverSample3"]
+    loop_tie_modules = ["LoopsOverSample", "LoopsOverSample3", "LoopsOverSample2"]
     modelled_functions = [
         "autoarray/geometry/geometry_util.py:central_pixel_coordinates_2d_from",
         "autoarray/geometry/geometry_util.py:central_scaled_coordinate_2d_from",
